@@ -1017,6 +1017,31 @@ func checkSubscriptionManager(r *Reporter, p *Prog) {
 		var wit []string
 		for _, ch := range clientChanges {
 			undone := false
+			// what undoes this change: deleting the entry undoes only the change that created it
+			// (`Set(topic, 1)`); after an increment of an existing entry the undo has to write the
+			// previous count back - a Delete there drops subscriptions the global count still contains
+			created := true
+			inspectNoLit(lf.nodeAt(ch), func(n ast.Node) bool {
+				if cl, ok := n.(*ast.CallExpr); ok {
+					if k, op := mapOp(n); k == "client" && op == "Set" && len(cl.Args) == 2 {
+						if lf.KeyAt(cl.Args[1], ch) != "1" {
+							created = false
+						}
+					}
+				}
+				return true
+			})
+			isUndo := isUndo
+			if !created {
+				isUndo = func(n ast.Node) bool {
+					cl, ok := n.(*ast.CallExpr)
+					if k, op := mapOp(n); !ok || !row.undo || k != "client" || op != "Set" || len(cl.Args) != 2 {
+						return false
+					}
+					pt, okp := lf.PointOf(cl)
+					return okp && !strings.Contains(lf.KeyAt(cl.Args[1], pt), "+1")
+				}
+			}
 			w, found := lf.reach(Point{ch.B, ch.I + 1}, &searchOpts{AvoidNode: func(n ast.Node) bool { return isGlobal(n) || isUndo(n) }}, func(pt Point, atExit bool) bool {
 				if atExit {
 					return row.m == "Subscribe" // Unsubscribe may stop when the global entry is missing (checked below)
@@ -1026,6 +1051,9 @@ func checkSubscriptionManager(r *Reporter, p *Prog) {
 			_ = undone
 			if found {
 				bad = "after the per-client count changed a path reaches the cleanup observer (or the end of the section) before the global topic count was changed to match: the observer subtracts a subscription the global count never contained"
+				if !created {
+					bad = "after an existing per-client count was incremented a path reaches the cleanup observer (or the end of the section) without the global count having been changed to match or the previous count having been written back (deleting the entry is not the undo of an increment: the client's earlier subscriptions stay in the global count for ever)"
+				}
 				wit = w
 			}
 		}
